@@ -4,6 +4,7 @@ INIT Init
 NEXT Next
 INVARIANT NoMismatch
 INVARIANT LazyOk
+INVARIANT AsCoded
 INVARIANT StateOk
 INVARIANT EmitCase
 CHECK_DEADLOCK FALSE
